@@ -28,6 +28,7 @@ def _make_classes():
             super().__init__()
             self.name, self.dim_, self.out_len = name, dim, out_len
             self.eval_log = []
+            self.scalar_eval = False  # eval returns a plain scalar (as most scalar-valued library functions do) instead of a length-1 array
 
         @property
         def F(self):
@@ -39,6 +40,8 @@ def _make_classes():
         def eval(self, coordinates):
             self.eval_log.append(tuple(float(c) if not is_sym(c) else c for c in coordinates))
             v = self.F(list(coordinates))
+            if self.scalar_eval and self.out_len == 1:
+                return v[0] if _SOURCE[0].lifted else float(v[0])
             if _SOURCE[0].lifted:
                 a = _np.empty(self.out_len, dtype=object)
                 for i, x in enumerate(v):
@@ -68,7 +71,7 @@ def _make_classes():
 _CLASSES = []
 
 
-def make_function(S, name, dim, out_len=1, cache=True):
+def make_function(S, name, dim, out_len=1, cache=True, scalar_eval=False):
     """A sparseSpACE Function whose values are given by the source S: uninterpreted in lifted mode,
     a table from the solver model in concrete mode.  With cache=False Function.__call__ is bypassed
     (needed when the coordinates themselves are symbolic: the cache hashes coordinate tuples)."""
@@ -82,7 +85,9 @@ def make_function(S, name, dim, out_len=1, cache=True):
             c.__qualname__ = c.__name__
     _SOURCE[0] = S
     _FUNCS[name] = S.func(name, dim, out_len)
-    return (_CLASSES[0] if cache else _CLASSES[1])(name, dim, out_len)
+    f = (_CLASSES[0] if cache else _CLASSES[1])(name, dim, out_len)
+    f.scalar_eval = scalar_eval
+    return f
 
 
 def sorted_reals(S, name, n, strict=True):
